@@ -190,6 +190,43 @@ pub fn run_case(case: &mut Case) {
             );
         }
 
+        // (d') what stands right of `--` is data for the error reporting as well: a surplus item
+        // there is never described as a misplaced flag, a misspelt name or a subcommand
+        if !has_dd && di % 3 == 0 {
+            let mut pool: Vec<Vec<u8>> = Vec::new();
+            for n in b.alpha.flags.iter().chain(b.alpha.args.iter()) {
+                for l in &n.longs {
+                    pool.push(format!("--{}", l).into_bytes());
+                }
+                for c in &n.shorts {
+                    pool.push(format!("--{}", c).into_bytes());
+                }
+            }
+            for c in &b.alpha.cmds {
+                pool.push(c.clone().into_bytes());
+            }
+            if !pool.is_empty() {
+                let mut argv = line.argv.clone();
+                argv.push(b"--".to_vec());
+                argv.push(rng.pick(&pool).clone());
+                let (out, _) = b.run(case, &argv, "surplus-name-like-item-right-of-separator");
+                if let crate::outcome::Outcome::Stderr { text } = &out {
+                    if text.contains("did you mean") {
+                        case.rep.violation(
+                            "separator:data-item-reported-as-a-name",
+                            "separator",
+                            case.index,
+                            b.detail(
+                                &argv,
+                                "surplus-name-like-item-right-of-separator",
+                                "a failure that treats the item as data (no `did you mean ..`)",
+                                &out,
+                            ),
+                        );
+                    }
+                }
+            }
+        }
         // (e) completion right of `--`: only positional data can follow, no flag, argument or
         // command name is a candidate there
         if has_dd && !b.alpha.cmds.is_empty() || has_dd && rng.chance(1, 4) {
